@@ -41,6 +41,8 @@ SCRIPTS = {
     # appends to every argument that is an existing regular file (used on the temporary COPY only)
     "rewrite.sh": '#!/bin/sh\nfor f in "$@"; do if [ -f "$f" ]; then printf REWRITTEN >> "$f"; fi; done\n',
     "trunc.sh": '#!/bin/sh\nif [ $# -ge 1 ] && [ -f "$1" ]; then : > "$1"; fi\n',
+    # truncates its LAST argument if that is an existing regular file (used on the temporary COPY only)
+    "trunclast.sh": '#!/bin/sh\nfor f in "$@"; do l="$f"; done\nif [ $# -ge 1 ] && [ -f "$l" ]; then : > "$l"; fi\n',
     "in2out.sh": '#!/bin/sh\nif [ $# -ge 2 ]; then cat "$1" > "$2"; fi\n',
     "readfail.sh": '#!/bin/sh\nif [ $# -ge 1 ]; then cat "$1" > /dev/null; else cat > /dev/null; fi\nexit 3\n',
 }
@@ -513,6 +515,28 @@ def transform_commands(hi, ho, ip, nc):
             ("read_sh", "in2out.sh $IN $OUT"), ("read_var", "dd if=$IN of=$OUT status=$none")]
 
 
+def multi_commands(hi, ho, ip, nc):
+    """Commands naming $IN (or $OUT) two or three times; run in EVERY tier.  With a private copy (no --no-copy) each $IN
+    is a fresh temp name and only the last one is the copy, so programs that write to a later $IN (sort -o, cp, the
+    rewriting scripts) are safe there — they must never reach a scanned file.  With --no-copy every $IN is the original:
+    read-only programs only."""
+    out = []
+    if hi and not nc:
+        out += [("multi_in_sort", "sort $IN -o $IN"), ("multi_in_rewrite", "rewrite.sh $IN $IN"), ("multi_in_cp", "cp $IN $IN"),
+                ("multi_in3_rewrite", "rewrite.sh $IN $IN $IN"), ("multi_in_trunc", "trunclast.sh $IN $IN"),
+                ("multi_in_cpnull", "cp /dev/null $IN $IN")]
+        if ho:
+            out = [("multi_in_out_rewrite", "rewrite.sh $IN $IN $OUT"), ("multi_in_out_trunc", "trunclast.sh $OUT $IN $IN"),
+                   ("multi_in_out_sh", "in2out.sh $IN $OUT $IN"), ("multi_in_out2", "true $IN $OUT $OUT $IN")]
+    elif hi and nc:
+        out += [("multi_in_read", "cat $IN $IN"), ("multi_in3_ignore", "true $IN $IN $IN")]
+        if ho:
+            out = [("multi_in_read_out", "true $IN $OUT $IN")]
+    elif ho and not ip:
+        out += [("multi_out_tee", "tee $OUT $OUT"), ("multi_out_ignore", "true $OUT $OUT")]
+    return out
+
+
 def tokenize(command):
     """The tokens parse_command sees: list of arguments, each a list of (kind, text); kind in L I O V."""
     args = []
@@ -542,7 +566,9 @@ def gen_runs(rng, thorough, cmds_per_mode):
                 for nc in (0, 1):
                     cmds = transform_commands(hi, ho, ip, nc)
                     pick = cmds[:3] + rng.shuffle(cmds[3:])
-                    for label, cmd in pick[:cmds_per_mode]:
+                    multi = multi_commands(hi, ho, ip, nc)
+                    multi = multi if thorough else multi[:1] + rng.shuffle(multi[1:])[:1]
+                    for label, cmd in pick[:cmds_per_mode] + multi:
                         extra = []
                         k = rng.below(8)
                         if k == 0:
